@@ -87,7 +87,7 @@ def base_forms(seed):
     return out
 
 
-SHORT_FORMS = ["2021-01-02", "20210102", "2021-045", "2021W011", "12:30", "T1230Z", "1:2", "P1DT2H", "P1W", "PT1.5S", "2021/1/2"[:8], "P1D/2021"]
+SHORT_FORMS = ["2021-01-02", "2021W011", "12:30", "T1230Z", "P1DT2H", "PT1.5S", "P1D/2021"]
 
 ND_ZEROS = (0x660, 0x966, 0xFF10, 0x1D7CE, 0x6F0)
 
@@ -245,7 +245,7 @@ def cases(tier, seed):
         n = len(f) * (1 + len(ALPHA) - 1) + (len(f) + 1) * len(ALPHA)
         for lo, hi in _chunks(n, BATCH):
             out.append({"stream": "single-edits-all", "fn": "edit1", "args": [seed, i, lo, hi], "oseed": seed + i})
-    per = 3200 if tier == "quick" else 12000
+    per = 3200 if tier == "quick" else 8000
     for i in range(len(forms)):
         for j in range(per // BATCH + 1):
             out.append({"stream": "double-edits-sampled", "fn": "edit2", "args": [seed * 31 + j, i, BATCH if tier != "quick" else per // (per // BATCH + 1)], "oseed": seed + j})
@@ -257,7 +257,7 @@ def cases(tier, seed):
     out.append({"stream": "truncations", "fn": "trunc", "args": [seed], "oseed": seed})
     for lo, hi in _chunks(len(forms), 2):
         out.append({"stream": "concatenations", "fn": "concat", "args": [seed, lo, hi], "oseed": seed + lo})
-    for j in range(40 if tier == "quick" else 400):
+    for j in range(40 if tier == "quick" else 150):
         out.append({"stream": "random-strings", "fn": "random", "args": [seed * 977 + j, BATCH], "oseed": seed + j})
     out.append({"stream": "unicode-digits-and-non-ascii", "fn": "unicode", "args": [seed], "oseed": seed})
     out.append({"stream": "whitespace-newlines", "fn": "space", "args": [seed], "oseed": seed})
@@ -356,7 +356,17 @@ def impl_run(cases):
                 except Exception as e:  # noqa
                     res.append([_exc(e, "iso")])
                 continue
-            kw = {"now": now, "exact": bool(o["exact"]), "strict": bool(o["strict"]), "day_first": bool(o["df"]), "year_first": bool(o["yf"])}
+            # options equal to the documented defaults (exact=False, strict=True, day_first=False, year_first=True) are left out,
+            # so that the defaults themselves are under test
+            kw = {"now": now}
+            if o["exact"]:
+                kw["exact"] = True
+            if not o["strict"]:
+                kw["strict"] = False
+            if o["df"]:
+                kw["day_first"] = True
+            if not o["yf"]:
+                kw["year_first"] = False
             if o["tz"] is not None:
                 kw["tz"] = tzs[o["tz"]]
             try:
